@@ -188,6 +188,22 @@ def r3_kv_and_comments(cx):
         ok = (call_attr(c) == "partition" or (len(c.args) == 2 and U(c.args[1]) == "1")) and isinstance(parent(c), ast.Subscript) and U(parent(c).slice) == "0"
         ok = ok and isinstance(parent(parent(c)), ast.Attribute) and parent(parent(c)).attr == "strip"
     drops = [x for x in feat.calls(rg, name="filter") if x.args and U(x.args[0]) == "None"] or [c for c in feat.walk(rg) if isinstance(c, ast.comprehension) and c.ifs]
+    if (not ok or not drops) and len(cuts) == 1 and not bad:
+        ok = False
+        # statement form:  active = line.split(comment_char, 1)[0].strip(); if active: out.append(active)   inside  for line in lines
+        c = cuts[0]
+        st = stmt_of(c)
+        lp_ = enclosing(c, ast.For)
+        if isinstance(st, ast.Assign) and isinstance(st.targets[0], ast.Name) and lp_ is not None and U(lp_.iter) == params(ga)[0] and not feat.loop_exits(lp_):
+            nm = st.targets[0].id
+            shape_ok = (call_attr(c) == "partition" or (len(c.args) == 2 and U(c.args[1]) == "1")) and isinstance(parent(c), ast.Subscript) and U(parent(c).slice) == "0" \
+                and isinstance(parent(parent(c)), ast.Attribute) and parent(parent(c)).attr == "strip"
+            aps = [x for x in find_calls(lp_.body, attr="append") if x.args and U(x.args[0]) == nm]
+            if shape_ok and len(aps) == 1 and set(guard_texts(aps[0], stop=lp_)) == set([(nm, True)]):
+                rets_ = [r_ for r_ in walk_body(ga.body) if isinstance(r_, ast.Return)]
+                if len(rets_) == 1 and U(rets_[0].value) == U(aps[0].func.value):
+                    ok = True
+                    drops = [aps[0]]
     cx.require(ok and bool(drops), cuts[0] if cuts else ga, "each line keeps the part before the first comment character, stripped; empty results are dropped; order kept",
                construct=short(stmt_of(cuts[0]), 120) if cuts else "(none)")
 
@@ -253,18 +269,36 @@ def r4_tables(cx):
     fd = m.func("parse_delimited_table", "C15.R4")
     ap = [x for x in find_calls(fd.body, attr="append") if U(x.func.value) == "r"]
     lp = enclosing(ap[0], ast.For) if ap else None
-    z = [x for x in find_calls(fd.body, name="zip") if len(x.args) == 2 and U(x.args[0]) == "headings" and call_name(parent(x)) == "dict"]
-    ok = lp is not None and len(z) == 1 and enclosing(z[0], ast.For) is lp
+    z = [x for x in ast.walk(fd) if isinstance(x, ast.Call) and call_name(x) == "zip" and len(x.args) == 2 and U(x.args[0]) == "headings" and call_name(parent(x)) == "dict"]
+    zf = enclosing_function(z[0]) if z else None
+    ok = len(z) == 1
     if ok:
-        ok = feat.flows_from(z[0].args[1], fd, lambda n: isinstance(n, ast.Call) and call_attr(n) == "split" and [U(a) for a in n.args] == ["delim", "max_splits"]) and feat.flows_from(ap[0].args[0], fd, lambda n: n is z[0])
+        ok = feat.flows_from(z[0].args[1], zf, lambda n: isinstance(n, ast.Call) and call_attr(n) == "split" and [U(a) for a in n.args] == ["delim", "max_splits"])
     cx.require(ok, z[0] if z else fd, "a delimited row is split by the delimiter and zipped with the headings", construct=short(stmt_of(z[0])) if z else "(none)")
-    ok = lp is not None and len(ap) == 1 and enclosing(lp, (ast.For, ast.While)) is None and not feat.loop_exits(lp)
-    if ok:
-        it = trace(lp.iter, fd)
-        g = set(guard_texts(ap[0], stop=lp))
-        cur = U(lp.target)
-        ok = U(it) == "table_lines[first_line + 1:last_line]" and g in (set([("row", True)]), set([("%s.strip()" % cur, True)]))
-    cx.require(ok, lp if lp is not None else fd, "every non-blank row after the heading yields one record, in order", construct="for line in table_lines[first_line + 1:last_line]: if row: r.append(o)")
+    ok = False
+    what = "(no row collection)"
+    if lp is not None and len(ap) == 1 and zf is fd:
+        # accumulate loop in the function itself
+        ok = enclosing(z[0], ast.For) is lp and feat.flows_from(ap[0].args[0], fd, lambda n: n is z[0]) and enclosing(lp, (ast.For, ast.While)) is None and not feat.loop_exits(lp)
+        if ok:
+            it = trace(lp.iter, fd)
+            g = set(guard_texts(ap[0], stop=lp))
+            cur = U(lp.target)
+            ok = U(it) == "table_lines[first_line + 1:last_line]" and g in (set([("row", True)]), set([("%s.strip()" % cur, True)]))
+        what = "for line in table_lines[first_line + 1:last_line]: if row: r.append(o)"
+    elif z and zf is not fd:
+        # comprehension over the content calling a local row builder:  [to_row(line) for line in content if line.strip()]
+        comps = [r_.value for r_ in walk_body(fd.body) if isinstance(r_, ast.Return) and isinstance(r_.value, ast.ListComp)]
+        if len(comps) == 1 and len(comps[0].generators) == 1:
+            g0 = comps[0].generators[0]
+            cur = U(g0.target)
+            elt = comps[0].elt
+            rb = [r_ for r_ in walk_body(zf.body) if isinstance(r_, ast.Return)]
+            ok = U(trace(g0.iter, fd)) == "table_lines[first_line + 1:last_line]" and [U(i) for i in g0.ifs] == ["%s.strip()" % cur] \
+                and isinstance(elt, ast.Call) and isinstance(elt.func, ast.Name) and elt.func.id == zf.name and [U(a) for a in elt.args] == [cur] \
+                and len(rb) == 1 and feat.flows_from(rb[0].value, zf, lambda n: n is z[0])
+            what = short(comps[0], 110)
+    cx.require(ok, lp if lp is not None else fd, "every non-blank row after the heading yields one record, in order", construct=what)
     hd = [a for a in walk_body(fd.body) if isinstance(a, ast.Assign) and U(a.targets[0]) == "headings"]
     ok = len(hd) == 1 and any(isinstance(n, ast.Call) and call_attr(n) == "split" and U(n.func.value) == "header" and [U(a) for a in n.args] == ["header_delim"] for n in ast.walk(hd[0].value))
     cx.require(ok, hd[0] if hd else fd, "headings are the header split by the header delimiter", construct=short(hd[0]) if hd else "(none)")
